@@ -107,7 +107,7 @@ def apply(eng, f, args, kwargs, st, node=None):
         if not any(is_z3(a) for a in args) and f.name in NATIVE_UF:
             yield NATIVE_UF[f.name](*args), st          # concrete replay: the spec function has an executable meaning
         else:
-            yield f.node(*[to_z3(to_num(a) if not is_bool_like(a) else a) for a in args]), st
+            yield f.node(*[(to_z3(to_num(a) if not is_bool_like(a) else a) if not isinstance(a, str) else enum_const(f.node.domain(i), a)) for i, a in enumerate(args)]), st
     else:
         raise OutOfSubset('call kind %s' % f.kind)
 
@@ -686,11 +686,37 @@ def _native_chord():
 _native_chord()
 
 
+def _native_key():
+    import importlib.util
+    import os
+    p = os.path.join(os.path.dirname(os.path.dirname(os.path.abspath(__file__))), 'contracts', '_key_spec.py')
+    sp = importlib.util.spec_from_file_location('_key_spec', p)
+    m = importlib.util.module_from_spec(sp)
+    sp.loader.exec_module(m)
+
+    def parsed(k):
+        try:
+            return m.parse(k)
+        except ValueError:
+            return None
+    NATIVE_UF['valid_key'] = lambda k: parsed(k) is not None
+    NATIVE_UF['key_is_x'] = lambda k: parsed(k) == ('x',)
+    NATIVE_UF['key_tonic'] = lambda k: (parsed(k) or (0, 'major'))[0] if parsed(k) != ('x',) else 0
+    NATIVE_UF['key_mode'] = lambda k: (parsed(k) or (0, 'major'))[1] if parsed(k) != ('x',) else 'major'
+
+
+_native_key()
+
+
 def uninterpreted(name, arg_kinds, res_kind):
     key = (name, tuple(arg_kinds), res_kind)
     if key not in _UF:
-        sorts = {'Int': z3.IntSort(), 'Real': z3.RealSort(), 'Bool': z3.BoolSort(), 'ObjT': kinds.OBJ_SORT}
-        _UF[key] = z3.Function(name, *([sorts[a] for a in arg_kinds] + [sorts[res_kind]]))
+        def sort_of(k):
+            if k.startswith('Enum:'):
+                _, nm, members = k.split(':')
+                return enum_sort(nm, members.split(','))[0]
+            return {'Int': z3.IntSort(), 'Real': z3.RealSort(), 'Bool': z3.BoolSort(), 'ObjT': kinds.OBJ_SORT}[k]
+        _UF[key] = z3.Function(name, *([sort_of(a) for a in arg_kinds] + [sort_of(res_kind)]))
     return _UF[key]
 
 
